@@ -15,3 +15,4 @@ pub mod c19;
 pub mod dtls_attacker;
 pub mod c14pc;
 pub mod dtls_ref;
+pub mod csched;
